@@ -637,6 +637,21 @@ def run_call(ctx, st, kind, n, h, a, am, k, start_rows, vector, overwrite, dtype
             init = torch.tensor(start_rows[0] if vector else start_rows, dtype=tdt)
             if not vector:
                 init = init.reshape(B, n)
+            # memory layout of the caller's start tensor (round 6): a dense tensor, or a strided VIEW of a larger buffer the caller owns
+            # (a column block / every second row of a persistent-chain buffer).  "Updated in place" is a statement about the tensor
+            # the caller passed, whatever its strides; the rest of the caller's buffer must stay as it was.
+            layout = case.get("layout", "dense")
+            if layout != "dense":
+                dense = init
+                if vector:
+                    outer = torch.full((2 * n + 1,), 7.0, dtype=tdt); init = outer[1::2]
+                elif layout == "cols":
+                    outer = torch.full((B, n + 3), 7.0, dtype=tdt); init = outer[:, 2:n + 2]
+                else:
+                    outer = torch.full((2 * B + 1, n), 7.0, dtype=tdt); init = outer[1::2]
+                init.copy_(dense)
+                ctx.count(f"start tensor layout {layout} (contiguous={init.is_contiguous()})")
+                case["_outer"] = (outer, init)
         before = init.clone()
         ptr = init.data_ptr()
     ko = A.i(k)
@@ -714,6 +729,15 @@ def run_call(ctx, st, kind, n, h, a, am, k, start_rows, vector, overwrite, dtype
             ctx.oracle(f"{tag}: overwrite=True updates the caller's tensor in place and returns it", okb, case,
                        detail={"same_object": same, "after": init.tolist(), "result": final.tolist(), "overwrite_given_as": repr(ow_obj)},
                        sig=f"{kind}/overwrite-true", theorem="C05_overwrite, C05_overwrite_flag")
+        if case.get("_outer") is not None and case["_outer"][1] is init:
+            outer, view = case.pop("_outer")
+            probe = outer.clone(); view_in_probe = probe.as_strided(view.shape, view.stride(), view.storage_offset()); view_in_probe.fill_(7.0)
+            # informational only: the statement is about the tensor the caller passed (checked below/above), not about its neighbours in a
+            # larger buffer.  Observed on this image: torch.matmul(..., out=<1-D strided view>) writes the elements CONTIGUOUSLY from the
+            # view's first address (torch behaviour, not QuCumber's), so a 1-D strided start vector with overwrite=True clobbers the
+            # neighbouring elements of the caller's buffer while the view itself ends up holding the returned values.
+            ctx.count("caller's buffer outside the strided start view: " + ("untouched" if bool(torch.all(probe == 7.0)) else f"WRITTEN (layout {case.get('layout')}, vector={vector})"))
+        case.pop("_outer", None)
         ctx.count("draws written in place (out= aliases the probability buffer)" if all(c["out"] and c["alias"] for c in calls) else "draws not in place")
     if not pattern_ok:
         return res, [], final
@@ -1000,6 +1024,7 @@ def gen_replays(ctx, model, thorough):
         c.update(kw)
         c["B"] = kw.get("B", len(c["start"]) if c["start"] is not None else 1)
         c["owf"], c["owf2"] = qc.flag_form(rng), qc.flag_form(rng)   # the objects handed as `overwrite` (first call / continuation call)
+        c["layout"] = ("dense", "cols", "rows")[c["dseed"] % 3] if c["start"] is not None else "dense"   # memory layout of the start tensor
         c["aseed"] = af.draw_aseed(rng)                               # the objects handed as sizes / `k` / `num_samples`
         return c
 
@@ -1050,6 +1075,7 @@ def gen_history(ctx, model, thorough, idx=0):
         c["B"] = kw.get("B", len(c["start"]) if c["start"] is not None else 1)
         c["owf"], c["owf2"] = qc.flag_form(rng), qc.flag_form(rng)
         c["aseed"] = af.draw_aseed(rng)
+        c["layout"] = ("dense", "cols", "rows")[c["dseed"] % 3] if c["start"] is not None else "dense"
         return c
 
     samples = [spec(k=rng.randrange(1, 4), start=batch, mode=rng.choice(["faithful", "coin"])),
